@@ -96,6 +96,13 @@ def mode_arg(mode, val, hi):
     return val, mode
 
 
+def pandas_keeps(ids):
+    """pandas turns an index that mixes floats with ints into float64: an int beyond 2**53 next to a float label is rounded
+    by pandas itself (9007199254740993 -> 9007199254740992.0); such an index is compared by length only"""
+    big = any(isinstance(x, int) and not isinstance(x, bool) and abs(x) > 2**53 for x in ids)
+    return not (big and any(isinstance(x, float) for x in ids))
+
+
 def check_stat(ctx, label, stat, view_ids, numeric=True):
     """asdict / aslist / asnumpy / aspandas / stat[id] agree and follow view order"""
     d = stat.asdict()
@@ -106,7 +113,10 @@ def check_stat(ctx, label, stat, view_ids, numeric=True):
         a = stat.asnumpy()
         ctx.check(len(a) == len(view_ids) and all(same(float(x), float(d[k])) for x, k in zip(a.tolist(), view_ids)), ("stat-agree", label, "asnumpy"), lambda: "%r vs %r" % (a, d))
     p = stat.aspandas()
-    ctx.check(list(p.index) == view_ids, ("stat-order", label, "aspandas"), lambda: "%r vs view %r" % (list(p.index), view_ids))
+    if pandas_keeps(view_ids):
+        ctx.check(list(p.index) == view_ids, ("stat-order", label, "aspandas"), lambda: "%r vs view %r" % (list(p.index), view_ids))
+    else:
+        ctx.check(len(p.index) == len(view_ids), ("stat-order", label, "aspandas-length"), lambda: "%r vs view %r" % (list(p.index), view_ids))
     if list(p.index) == view_ids:
         ctx.check(all(same(p.iloc[i], d[k]) or (numeric and same(float(p.iloc[i]), float(d[k]))) for i, k in enumerate(view_ids)), ("stat-agree", label, "aspandas"), lambda: "%r vs %r" % (p.tolist(), d))
     for k in view_ids[:3]:
@@ -134,7 +144,8 @@ def check_multi(ctx, label, view, stats, view_ids, held=None):
         arr = m.asnumpy()
         ctx.check(arr.shape == (len(view_ids), len(names)) and all(same(float(arr[i, j]), float(single[nm][k])) for i, k in enumerate(view_ids) for j, nm in enumerate(names)), ("multi", label, "asnumpy"), lambda: repr(arr)[:200])
         df = m.aspandas()
-        ctx.check(list(df.index) == view_ids, ("multi", label, "aspandas-order"), lambda: "%r vs %r" % (list(df.index), view_ids))
+        if pandas_keeps(view_ids):
+            ctx.check(list(df.index) == view_ids, ("multi", label, "aspandas-order"), lambda: "%r vs %r" % (list(df.index), view_ids))
         ctx.check(list(df.columns) == names, ("multi", label, "aspandas-columns"), "")
         if list(df.index) == view_ids and list(df.columns) == names:
             ctx.check(all(same(float(df.iloc[i, j]), float(single[nm][k])) for i, k in enumerate(view_ids) for j, nm in enumerate(names)), ("multi", label, "aspandas-values"), "")
